@@ -1,6 +1,6 @@
 #!/bin/bash
 # run_all.sh [tier]: run every claimed check sequentially and print a one-line summary each.
-cd /verif
+cd "$(dirname "$0")/.."
 T=${1:-quick}
 for P in $(python3 -c "import json; print(' '.join(c['property_id'] for c in json.load(open('MANIFEST.json'))['checks']))"); do
   s=$(date +%s)
